@@ -15,6 +15,7 @@ name: dlist_own_done
 define: U_DONE, U_KIND_LIST
 src: dlinked_list.c, linked_list.c, obj.c
 tier: B
+native: self
 backend: cadical
 unwind: 10
 unwind_thorough: 12
@@ -27,6 +28,7 @@ name: dlist_own_remove
 define: U_REMOVE, U_KIND_LIST
 src: dlinked_list.c, linked_list.c, obj.c
 tier: B
+native: self
 backend: cadical
 unwind: 10
 unwind_thorough: 12
@@ -39,6 +41,7 @@ name: dlist_own_insert_at
 define: U_INSERT_AT, U_KIND_LIST, VL_MINN=1
 src: dlinked_list.c, linked_list.c, obj.c
 tier: B
+native: self
 backend: cadical
 unwind: 10
 unwind_thorough: 12
@@ -51,6 +54,7 @@ name: dlist_own_results
 define: U_RESULTS, U_KIND_LIST
 src: dlinked_list.c, linked_list.c, obj.c
 tier: B
+native: self
 backend: cadical
 unwind: 10
 unwind_thorough: 12
@@ -63,6 +67,7 @@ name: dlist_own_dup
 define: U_DUPDEL, U_KIND_LIST, VL_MINN=1, U_NO_PLACEHOLDER
 src: dlinked_list.c, linked_list.c, obj.c
 tier: B
+native: self
 backend: cadical
 unwind: 10
 unwind_thorough: 12
@@ -75,6 +80,7 @@ name: dlist_own_map_set
 define: U_MAP_SET, U_KIND_MAP
 src: dlinked_list.c, linked_list.c, objpair.c, obj.c
 tier: B
+native: self
 backend: cadical
 unwind: 10
 unwind_thorough: 12
@@ -88,6 +94,7 @@ name: dlist_own_map_remove
 define: U_MAP_REMOVE, U_KIND_MAP
 src: dlinked_list.c, linked_list.c, objpair.c, obj.c
 tier: B
+native: self
 backend: cadical
 unwind: 10
 unwind_thorough: 12
@@ -101,6 +108,7 @@ name: dlist_own_map_lists
 define: U_MAP_LISTS, U_KIND_MAP
 src: dlinked_list.c, linked_list.c, objpair.c, obj.c
 tier: B
+native: self
 backend: cadical
 unwind: 10
 unwind_thorough: 12
@@ -135,20 +143,22 @@ funcs: spif_dlinked_list_get_keys, spif_dlinked_list_get_values, spif_dlinked_li
 
 #ifdef U_KIND_MAP
 vl_map_t m;
-# define BUILD(self, m) VL_BUILD_MAP(self, LT, IT, SPIF_MAPCLASS_VAR(dlinked_list), VL_DL, m, vl_pick_len())
+# define BUILD(self, m) do { VL_INPUTS(vin, a); VL_BUILD_MAP(self, LT, IT, SPIF_MAPCLASS_VAR(dlinked_list), VL_DL, m, vin); } while (0)
 #else
 vl_seq_t m;
-# define BUILD(self, m) VL_BUILD(self, LT, IT, SPIF_LISTCLASS_VAR(dlinked_list), VL_DL, m, vl_pick_len(), vl_data_list)
+# define BUILD(self, m) do { VL_INPUTS(vin, a); VL_BUILD(self, LT, IT, SPIF_LISTCLASS_VAR(dlinked_list), VL_DL, m, vin, vl_data_list); } while (0)
 #endif
+vl_in_t vin;            /* the built container's inputs (VND: replayable natively) */
 int w_n, w_idx;
 
 void harness(void)
 {
     LT self;
     spif_obj_t x, r;
-    int k = nondet_int(), v = nondet_int();
-    spif_listidx_t idx = nondet_int();
+    int k = (int) VND(int, k), v = (int) VND(int, v);
+    spif_listidx_t idx = (spif_listidx_t) VND(int, idx);
 
+    VL_HEAP_MARK();
     BUILD(self, m);
     w_n = m.len; w_idx = idx;
 #ifdef U_NO_PLACEHOLDER
@@ -165,7 +175,7 @@ void harness(void)
     __CPROVER_assert(DEL(self) == TRUE, "dlist del: returns TRUE");
 #endif
 #ifdef U_REMOVE
-    if (nondet_bool()) {
+    if (VND(bool, c1)) {
         r = spif_dlinked_list_remove_at(self, idx);
     } else {
         x = (spif_obj_t) vl_elem(k);
@@ -174,7 +184,8 @@ void harness(void)
     }
     if (r != NULL) {            /* handed back: ours now - still alive, and the container does not free it later */
         DEL(self);
-        __CPROVER_assert(__CPROVER_r_ok((velem_t) r, sizeof(struct velem_struct)), "dlist remove: the element handed back is not freed by the container");
+        w_idx = ((velem_t) r)->key;  /* a read: natively ASan judges it */
+        __CPROVER_assert(VL_R_OK((velem_t) r, sizeof(struct velem_struct)), "dlist remove: the element handed back is not freed by the container");
         free(r);
     } else {
         DEL(self);
@@ -237,5 +248,6 @@ void harness(void)
         spif_linked_list_del(ks); spif_linked_list_del(vs); spif_linked_list_del(ps);      /* ... and owned by the caller */
     }
 #endif
+    VL_HEAP_CHECK();
     VERIF_CANARY();
 }
